@@ -985,7 +985,10 @@ def evaluate__codepoints_to_string(
     value: Union[ta.ItemType, int]
     for value in self[0].atomization(context):
         if isinstance(value, UntypedAtomic):
-            value = int(value)
+            try:
+                value = int(value)
+            except ValueError as err:
+                raise self.error('FORG0001', err) from None
 
         if not isinstance(value, int) or isinstance(value, bool):
             msg = "invalid type {} for codepoint {}".format(type(value), value)
